@@ -145,16 +145,30 @@ func (e *Engine) formatIntSym(i Int) Value {
 	if neg {
 		bs = append(bs, mkInt(8, '-'))
 	}
+	// abs < 10^nd on this path: do the digit arithmetic in the narrowest sufficient width
+	w := 64
+	switch {
+	case nd <= 2:
+		w = 8
+	case nd <= 4:
+		w = 16
+	case nd <= 9:
+		w = 32
+	}
+	na := abs
+	if w < 64 {
+		na = mkExtract(w-1, 0, abs)
+	}
 	div := uint64(1)
 	for k := 1; k < nd; k++ {
 		div *= 10
 	}
 	for k := 0; k < nd; k++ {
-		q := abs
+		q := na
 		if div > 1 {
-			q = mk("bvudiv", 64, abs, bvConst(64, div))
+			q = mk("bvudiv", w, na, bvConst(w, div))
 		}
-		d := mk("bvurem", 64, q, bvConst(64, 10))
+		d := mk("bvurem", w, q, bvConst(w, 10))
 		bs = append(bs, fromTermI(mk("bvadd", 8, mkExtract(7, 0, d), bvConst(8, '0'))))
 		div /= 10
 	}
